@@ -782,7 +782,7 @@ func init() {
 	register(&Scenario{
 		Prop:  "C20",
 		Level: "exploration",
-		Rule:  "the recording metric factory observes the same seeded histories as C01/C09 in three batches (sequential, concurrent under the seeded scheduler, sequential with fail-stop storage faults); per run and log the four counters' deltas must equal the counts of actual outcomes; non-trivial = the run moved at least two different counters; distinct = distinct outcome mixes (multiset of verdict classes incl. storage failures and CAS conflicts) x store x batch",
+		Rule:  "the recording metric factory observes the same seeded histories as C01/C09 in three batches (sequential - some requests arriving with a context that has already ended -, concurrent under the seeded scheduler, sequential with fail-stop storage faults); per run and log the four counters' deltas must equal the counts of actual outcomes; non-trivial = the run moved at least two different counters; distinct = distinct outcome mixes (multiset of verdict classes incl. storage failures and CAS conflicts) x store x batch",
 		Gen: func(r *Rng, tier string, n uint64) *Plan {
 			pf := Profile{MaxLogs: 3, ShareKeys: true, MinOps: 3, MaxOps: 14, Adversarial: 0.6, Mutations: 0.25, BigSizes: r.Chance(0.2)}
 			p := &Plan{Scenario: "W"}
@@ -833,6 +833,14 @@ func init() {
 				makeConcurrent(r, p)
 			case 2:
 				addFaults(r, p, 0.08)
+			default:
+				// some requests arrive with a context that has already ended (a client that went away, an expired feed round): each
+				// still is a request that named a log
+				for i := range p.Ops {
+					if p.Ops[i].K == "update" && r.Chance(0.15) {
+						p.Ops[i].Ms = -1
+					}
+				}
 			}
 			return p
 		},
